@@ -88,7 +88,7 @@ def rearmCancelHistory : List Op :=
   [.c (.newTimer 1 (some 5)), .c (.insertd 1), .c (.newTimer 2 (some 50)), .c (.insert 2),
    .script 1 1 { ret := .toInstant 20 },
    .c (.advance 6), .dispatch,
-   .c (.disable 1), .c (.enable 1), .c (.setDeadline 1 30), .c (.update 1),
+   .c (.disable 1), .c (.enable 1), .c (.setDeadline 1 (some 30)), .c (.update 1),
    .c (.remove 2), .c (.advance 10), .dispatch]
 
 open Verif.Loop in
